@@ -66,7 +66,7 @@ def _robot(rule, probes, level_text, quick=4000, thorough=200000, level="explora
         "state_measure": "(mode shown in /robot/mode, callback role) pairs and their successions along the expected log, hashed",
         "real_vs_stub": REAL_STUB_ROBOT,
         "assumptions": ["single robot thread; driver-station packets carry one of disabled/teleop/auto/test (never auto+test together)",
-                        "events inside feedback getters are limited to raising", "autonomous mode chosen by DEFAULT flag or the 'Auto Selector' string (chooser selection is C14's)"],
+                        "events inside feedback getters are limited to raising", "autonomous mode chosen by DEFAULT flag, the 'Auto Selector' string or a dashboard chooser selection (effective at the next SmartDashboard update in robotPeriodic)"],
     }
 
 _ROBOT_LT = "seeded search over whole robot lifetimes: driver-station packets at any wake-up or inside any callback, slow callbacks, late wake-ups, shutdown anywhere, raising callbacks; the observed callback log, clock, /robot/mode, attribute values and NetworkTables entries are compared with an executable model of the mode-switching contract and with model-independent invariants; sampling, not proof"
